@@ -60,7 +60,7 @@ def concretize(rec):
         info = rec["info"][n]
         if it["k"] == "open":
             name = (it["ep"] + ":" if it["ep"] else "") + ("block" if it["ep"] else "div")
-            decls = [(d, 'xmlns:%s="%s"' % (d["p"], URI[d["u"]])) for d in it["ds"]]
+            decls = [(d, ('xmlns:%s="%s"' % (d["p"], URI[d["u"]])) if d["p"] else 'xmlns="%s"' % URI[d["u"]]) for d in it["ds"]]
             attrs = [(a, attr_text(a, info["ans"][j], n)) for j, a in enumerate(it["as"])]
             parts = ([t for _, t in decls] + [t for _, t in attrs]) if it["dfirst"] else ([t for _, t in attrs] + [t for _, t in decls])
             kept_d = [t for d, t in decls if d in info["kept"]["ds"]]
